@@ -207,7 +207,8 @@ pub fn rewrite_s() -> BoxedStrategy<Rewrite> {
     .boxed()
 }
 
-const RENUM_POOL: [i32; 12] = [0, 1, 2, 3, 7, -1, -2, 12, 5, 40, 99, -7];
+// (small ids, negative ids, and ids beyond 2^24 - not representable in an f32 - up to the ends of i32)
+const RENUM_POOL: [i32; 18] = [0, 1, 2, 3, 7, -1, -2, 12, 5, 40, 99, -7, 16_777_217, 16_777_216, 1_000_000_001, i32::MAX, i32::MIN, -16_777_217];
 
 /// the id mapping of a Renumber rewriting (identity for ids outside the pool)
 pub fn renumber_id(id: i32, shift: u8) -> i32 {
